@@ -11,6 +11,8 @@ import (
 	bhamt "github.com/ipfs/boxo/ipld/unixfs/hamt"
 	"github.com/ipfs/go-cid"
 	format "github.com/ipfs/go-ipld-format"
+	"github.com/ipfs/go-unixfsnode"
+	"github.com/ipld/go-ipld-prime/datamodel"
 	"pgregory.net/rapid"
 )
 
@@ -196,11 +198,20 @@ func TestC08_P_ReferenceHistories(t *testing.T) {
 		nonMembers = append(nonMembers, "", "zz")
 		ls := st.LinkSystem()
 		withPast := rapid.IntRange(0, 2).Draw(t, "faultyPast") == 0
-		for _, reifier := range []string{"unixfs", "unixfs-preload"} {
+		for _, reifier := range []string{"unixfs", "unixfs-preload", "Load+NodeReifier"} {
 			var cerr error
 			hist := ""
 			must(t, "read reference HAMT via "+reifier, func() {
-				dir, err := loadReified(ls, root, reifier)
+				var dir datamodel.Node
+				var err error
+				if reifier == "Load+NodeReifier" {
+					// a link system that reifies whatever it loads (LinkSystem.NodeReifier): sub-shards reach their parent reified
+					ls2 := *ls
+					ls2.NodeReifier = unixfsnode.Reify
+					dir, err = ls2.Load(lcS, cidLink(root), protoForCid(root))
+				} else {
+					dir, err = loadReified(ls, root, reifier)
+				}
 				if err != nil {
 					cerr = fmt.Errorf("reify: %w", err)
 					return
